@@ -180,8 +180,11 @@ FileSequence findSequenceOnDisk(const std::string &pattern, PadStyle style, Stat
         return {};
     }
 
+    // A pattern without a directory part names files of the working directory
+    const std::string scanDir = fs.dirname().empty() ? std::string(".") : fs.dirname();
+
     FileSequences seqs;
-    localOk = findSequencesOnDisk(seqs, fs.dirname(), fs);
+    localOk = findSequencesOnDisk(seqs, scanDir, fs);
     if (!localOk) {
         if (ok != nullptr) {
             std::ostringstream err;
@@ -567,7 +570,8 @@ Status findSequencesOnDisk(FileSequences &seqs,
             // A basename that itself contains padding characters or
             // range-like text is split differently when it is parsed
             // again, so force the components found while scanning.
-            fs.setDirname(root);
+            // (with a template: the template's own directory, which may be empty)
+            fs.setDirname(useTemplate ? seqTemplate.dirname() : root);
             fs.setBasename(name);
             fs.setExt(ext);
             fs.setPadding(pad);
